@@ -18,7 +18,9 @@ VARIABLES l, c, x, bad
 
 NoCfg == [mode |-> "none"]
 CfgOf(r) ==
-  IF r.mode = "E"
+  IF r.mode = "P" THEN [mode |-> "P", prior |-> r.prior, dims |-> r.dims, ctor |-> r.ctor, ready |-> FALSE, kappaOk |-> TRUE]
+  ELSE IF r.mode = "R" THEN [mode |-> "R", prior |-> r.prior, dims |-> r.dims, beta8 |-> r.beta8, filter |-> r.filter]
+  ELSE IF r.mode = "E"
   THEN [mode |-> "E", prior |-> r.prior, dims |-> r.dims, wr |-> r.wr, w |-> r.w, st |-> Stencil(r.wr, r.w), nb |-> NbTable(r.dims, Stencil(r.wr, r.w)), kappa |-> r.kappa,
         beta |-> r.beta, gamma |-> r.gamma, eps |-> r.eps, convex |-> r.convex,
         sym |-> SymmetricW(r.wr, r.w), cfree |-> CentreFree(r.wr, r.w)]
@@ -27,17 +29,79 @@ CfgOf(r) ==
         sym |-> (r.w4 = <<>> \/ SymmetricW(r.wr, r.w4)), cfree |-> (r.w4 = <<>> \/ CentreFree(r.wr, r.w4))]
 
 Good(r) == ~Has(r, "bad")
+N == NVox(c.dims)
 SeqSet(s) == { s[i] : i \in 1..Len(s) }
 
 \* the implementation may refuse weights that are not Gibbs weights (and only those)
 RejectionOk(r) == /\ Good(r) /\ Len(r.wr) = 3 /\ Len(r.w) = WLen(r.wr)
                   /\ (~SymmetricW(r.wr, r.w) \/ ~CentreFree(r.wr, r.w))
 
+(***************************************************************************)
+(* Beyond the property (a): FilterRootPrior, the other registered          *)
+(* GeneralisedPrior.  Documented: G_v = beta (lambda_v / F_v - 1) with F   *)
+(* the filtered image; the quotient is replaced by M sign(F) sign(lambda), *)
+(* M = 1000, unless |lambda| < M |F|; "not a real prior": value 0, not     *)
+(* convex, no Hessian.  The filtered image is recorded (kx fractional      *)
+(* bits, exact), the gradient with 10 fractional bits.                     *)
+(***************************************************************************)
+Sgn(a) == IF a >= 0 THEN 1 ELSE -1        \* as the implementation: sign(0) = +1
+FRConfigOk(r) == /\ r.prior = "frp" /\ ~r.convex /\ r.hessErr /\ r.value1024 = 0
+                 /\ r.unsetErr                      \* "Has to be called before using this object"
+                 /\ r.filter \in {"none", "median", "scale"}
+FRGradOk(beta8, filter, lam, f, g) ==
+  IF beta8 = 0 \/ filter = "none" THEN g = 0
+  ELSE IF Abs(lam) < 1000 * Abs(f)
+       THEN LET q == ((lam - f) * 1024) \div f IN       \* floor((lambda/F - 1) 2^10)
+            Abs(8 * g - beta8 * q) <= 2 * Abs(beta8) + 8 + Abs(8 * g) \div 262144
+       ELSE 8 * g = beta8 * (1000 * Sgn(lam) * Sgn(f) - 1) * 1024
+ExplainsR(r) ==
+  CASE r.e = "FRGrad" ->
+         /\ Good(r) /\ ~r.err /\ r.resf = 0 /\ r.k = 10 /\ Len(r.x) = N /\ Len(r.f) = N /\ Len(r.g) = N
+         /\ \A i \in 1..N : FRGradOk(c.beta8, c.filter, r.x[i], r.f[i], r.g[i])
+         \* "the gradient vanishes for uniform images" (a median of equal values is that value)
+         /\ (r.uniform /\ c.filter = "median" => \A i \in 1..N : r.g[i] = 0)
+    [] OTHER -> FALSE
+
+(***************************************************************************)
+(* Beyond the property (b): the set-up protocol of GeneralisedPrior and    *)
+(* the parameter files.  "set_up: Has to be called before using this       *)
+(* object"; check(): "The prior should already be set-up", and the kappa   *)
+(* image "should have identical dimensions to the image for which the      *)
+(* penalty is computed".  State: ready (set_up done and not invalidated),  *)
+(* kappaOk (the kappa image matches the image of the calls).               *)
+(***************************************************************************)
+NotImplemented(prior, fn) == \/ prior = "pls" /\ fn \in {"hessian", "htimes", "happrox"}
+                             \/ prior \in {"rdp", "logcosh"} /\ fn = "happrox"
+\* RelativeDifferencePrior::set_weights / set_kappa_sptr reset the set-up flag (the other classes do not)
+SetterInvalidates(prior) == prior = "rdp"
+ProtoNext(cc, r) ==
+  CASE r.e = "SetUp" -> [cc EXCEPT !.ready = (cc.ready \/ ~r.err)]
+    [] r.e = "SetKappa" -> [cc EXCEPT !.kappaOk = r.match, !.ready = (cc.ready /\ ~SetterInvalidates(cc.prior))]
+    [] r.e = "SetWeights" -> [cc EXCEPT !.ready = (cc.ready /\ ~SetterInvalidates(cc.prior))]
+    [] OTHER -> cc
+CallMustFail(cc, fn) == NotImplemented(cc.prior, fn) \/ ~cc.ready \/ ~cc.kappaOk
+ExplainsP(r) ==
+  CASE r.e = "SetUp" -> ~r.err
+    [] r.e \in {"SetKappa", "SetWeights", "SetBeta"} -> TRUE
+    [] r.e = "Call" -> r.fn \in {"value", "gradient", "hessian", "htimes", "happrox"} /\ (r.err <=> CallMustFail(c, r.fn))
+    \* an object that was used for images of another voxel size and set up again answers like a fresh object
+    \* (default weights are a function of the grid spacing of the image)
+    [] r.e = "Fresh" -> Good(r) /\ ~r.setUpErr /\ ~r.errUsed /\ ~r.errFresh /\ r.va = r.vb /\ r.ga = r.gb
+    \* parameter text -> object -> parameter_info -> object -> parameter_info: both parse, the two printed forms are
+    \* identical, both objects and the object configured through the setters (kappa / anatomical image from memory
+    \* instead of from the Interfile images named in the text) give identical value and gradient
+    [] r.e = "RoundTrip" -> /\ Good(r) /\ r.ok1 /\ r.ok2 /\ ~r.err1 /\ ~r.err2 /\ ~r.errDirect
+                            /\ r.info1 = r.info2 /\ r.v1 = r.v2 /\ r.g1 = r.g2 /\ r.v1 = r.vd /\ r.g1 = r.gd
+    [] OTHER -> FALSE
+
 ConfigOk(r) ==
   /\ Good(r)
   /\ Len(r.dims) = 3 /\ \A a \in 1..3 : r.dims[a] >= 1
-  /\ Len(r.wr) = 3 /\ \A a \in 1..3 : r.wr[a] >= 0
-  /\ IF r.mode = "E"
+  /\ IF r.mode = "P" THEN r.e = "New" /\ r.prior \in {"quad", "rdp", "logcosh", "pls"}
+     ELSE IF r.mode = "R" THEN FRConfigOk(r)
+     ELSE Len(r.wr) = 3 /\ \A a \in 1..3 : r.wr[a] >= 0
+  /\ IF r.mode \in {"P", "R"} THEN TRUE
+     ELSE IF r.mode = "E"
      THEN /\ r.prior \in {"quad", "rdp", "logcosh"}
           /\ Len(r.w) = WLen(r.wr) /\ \A i \in 1..Len(r.w) : r.w[i] >= 0
           /\ Len(r.kappa) \in {0, NVox(r.dims)} /\ \A i \in 1..Len(r.kappa) : r.kappa[i] >= 0
@@ -51,7 +115,6 @@ ConfigOk(r) ==
           /\ (r.prior # "pls" /\ ~r.userw => r.wr = (IF r.only2D THEN <<0, 1, 1>> ELSE <<1, 1, 1>>))
           /\ Len(r.w4) \in {0, WLen(r.wr)} /\ (r.userw <=> r.w4 # <<>>) /\ \A i \in 1..Len(r.w4) : r.w4[i] >= 0
 
-N == NVox(c.dims)
 
 (***************************************************************************)
 (* mode E                                                                  *)
@@ -220,7 +283,7 @@ ExplainsF(r) ==
          /\ \A k \in 1..Len(r.js) : FDGBracket(r.g0[k], r.g1[k], r.h0[k], r.h1[k])
     [] OTHER -> FALSE
 
-Explains(r) == IF c.mode = "E" THEN ExplainsE(r) ELSE IF c.mode = "F" THEN ExplainsF(r) ELSE FALSE
+Explains(r) == CASE c.mode = "E" -> ExplainsE(r) [] c.mode = "F" -> ExplainsF(r) [] c.mode = "P" -> ExplainsP(r) [] c.mode = "R" -> ExplainsR(r) [] OTHER -> FALSE
 
 \* Known findings (known_findings.jsonl): an unexplained line is attributed to one of them only by the
 \* signature below; everything else is "new".
@@ -231,13 +294,28 @@ Explains(r) == IF c.mode = "E" THEN ExplainsE(r) ELSE IF c.mode = "F" THEN Expla
 PlsInterior(cc, i) ==
   LET d == cc.dims IN
   /\ CY(d, i) >= 1 /\ CY(d, i) <= d[2] - 2 /\ CX(d, i) >= 1 /\ CX(d, i) <= d[3] - 2
-  /\ (cc.only2D \/ (CZ(d, i) >= 1 /\ CZ(d, i) <= d[1] - 2))
+  \* (through the constructor only_2D is currently ignored, C09-ctor2d: the prior then also looks along z)
+  /\ ((cc.only2D /\ cc.route # "ctor") \/ (CZ(d, i) >= 1 /\ CZ(d, i) <= d[1] - 2))
 \* C09-asymweights: set_weights()/the "weights" keyword accept weights with w[dr] # w[-dr]; the gradient is then
 \* not the derivative of the value and the Hessian is not symmetric (MC_Priors, InvA1).
 \* C09-centreweight: a non-zero weight at the centre of the stencil is added to the Hessian diagonal
 \* (compute_Hessian and accumulate_Hessian_times_input) although value and gradient do not depend on it.
 Classify(r, cc) ==
-  IF cc.mode = "F" /\ cc.prior = "pls" /\ r.e = "FDV" /\ Has(r, "i") /\ (cc.hasKappa \/ ~PlsInterior(cc, r.i)) THEN "C09-plsgrad"
+  \* C09-nocheck: RelativeDifferencePrior::accumulate_Hessian_times_input and LogcoshPrior::compute_value / compute_gradient /
+  \* accumulate_Hessian_times_input do not call check(): no error before set_up (and no check of the kappa image)
+  IF cc.mode = "P" /\ r.e = "Call" /\ ~r.err /\ ~cc.ready /\ cc.kappaOk
+     /\ ((cc.prior = "rdp" /\ r.fn = "htimes") \/ (cc.prior = "logcosh" /\ r.fn \in {"value", "gradient", "htimes"})) THEN "C09-nocheck"
+  \* C09-uninitsetup: GeneralisedPrior() does not initialise _already_set_up and QuadraticPrior(only_2D, penalisation_factor)
+  \* does not call set_defaults(): whether use before set_up is reported depends on the previous content of the storage
+  ELSE IF cc.mode = "P" /\ r.e = "Call" /\ ~r.err /\ ~cc.ready /\ cc.kappaOk /\ cc.prior = "quad" /\ cc.ctor = "args" THEN "C09-uninitsetup"
+  \* C09-staleweights: the default weights are computed at the first use and kept when the object is set up for an image of
+  \* another voxel size
+  ELSE IF cc.mode = "P" /\ r.e = "Fresh" /\ cc.prior # "pls" /\ ~r.setUpErr /\ ~r.errUsed /\ ~r.errFresh THEN "C09-staleweights"
+  \* C09-medianborder: MedianArrayFilter3D selects the median among the whole mask buffer although border voxels fill only
+  \* part of it: the Median Root Prior's gradient does not vanish on uniform images
+  ELSE IF cc.mode = "R" /\ r.e = "FRGrad" /\ cc.filter = "median" /\ r.uniform /\ ~r.err /\ r.resf = 0
+          /\ (\A i \in 1..NVox(cc.dims) : FRGradOk(cc.beta8, cc.filter, r.x[i], r.f[i], r.g[i])) THEN "C09-medianborder"
+  ELSE IF cc.mode = "F" /\ cc.prior = "pls" /\ r.e = "FDV" /\ Has(r, "i") /\ (cc.hasKappa \/ ~PlsInterior(cc, r.i)) THEN "C09-plsgrad"
   \* C09-ctor2d: the constructors RelativeDifferencePrior(only_2D, ...), LogcoshPrior(only_2D, ...), PLSPrior(only_2D, ...)
   \* call set_defaults() after initialising the member, which resets only_2D to false
   ELSE IF r.e = "Config" /\ cc.mode = "F" /\ cc.route = "ctor" /\ cc.only2D /\ cc.prior \in {"rdp", "logcosh"} /\ cc.wr = <<1, 1, 1>> THEN "C09-ctor2d"
@@ -251,10 +329,11 @@ Classify(r, cc) ==
 Init == l = 1 /\ c = NoCfg /\ x = <<>> /\ bad = <<>>
 Next == /\ l <= Len(TraceLog)
         /\ LET r == TraceLog[l] IN
-           /\ c' = IF r.e = "Config" THEN CfgOf(r) ELSE IF r.e = "ConfigRejected" THEN NoCfg ELSE c
-           /\ x' = IF r.e = "Config" THEN <<>> ELSE IF r.e = "Image" /\ c.mode # "none" THEN r.x ELSE x
-           /\ LET okr == IF r.e = "Config" THEN ConfigOk(r) ELSE IF r.e = "ConfigRejected" THEN RejectionOk(r) ELSE Explains(r)
-                  cls == IF okr THEN "ok" ELSE Classify(r, IF r.e = "Config" THEN CfgOf(r) ELSE c) IN
+           /\ c' = IF r.e \in {"Config", "New"} THEN CfgOf(r) ELSE IF r.e = "ConfigRejected" THEN NoCfg
+                   ELSE IF c.mode = "P" THEN ProtoNext(c, r) ELSE c
+           /\ x' = IF r.e \in {"Config", "New"} THEN <<>> ELSE IF r.e = "Image" /\ c.mode # "none" THEN r.x ELSE x
+           /\ LET okr == IF r.e \in {"Config", "New"} THEN ConfigOk(r) ELSE IF r.e = "ConfigRejected" THEN RejectionOk(r) ELSE Explains(r)
+                  cls == IF okr THEN "ok" ELSE Classify(r, IF r.e \in {"Config", "New"} THEN CfgOf(r) ELSE c) IN
               bad' = IF okr THEN bad
                      ELSE IF cls = "new" THEN (IF Len(SelectSeq(bad, LAMBDA b : b[2] = "new")) < 500 THEN Append(bad, <<l, cls>>) ELSE bad)
                      ELSE (IF Len(SelectSeq(bad, LAMBDA b : b[2] = cls)) < 20 THEN Append(bad, <<l, cls>>) ELSE bad)
